@@ -9,7 +9,7 @@ from . import alloc_model, common, cons, hand, hist, place, xt
 
 PID = "C20"
 
-GROUPS = ["one", "two-shared", "two-separate", "three-mixed", "bytearray-shared", "hole-in-the-middle", "explicit-offset", "bytearray-hole"]
+GROUPS = ["one", "two-shared", "two-separate", "three-mixed", "bytearray-shared", "hole-in-the-middle", "explicit-offset", "bytearray-hole", "grown-shared"]
 
 
 def describe(tier):
@@ -85,6 +85,10 @@ def make_group(group, make, make_at=None):
         o0 = make(big, 0)
         o1 = make_at(big, 1, 2048)
         return [o0, o1]
+    if group == "grown-shared":
+        # the shared buffer has GROWN (more than once) before anything is pickled
+        bg = ctx.new_buffer(8)
+        return [make(bg, 0), make(bg, 1), make(bg, 2)]
     if group == "bytearray-shared":
         b3 = BufferByteArray(capacity=16, context=ctx)
         return [make(b3, 0), make(b3, 1)]
@@ -360,6 +364,8 @@ def run_xo(name, tier, res, seed):
                             c = hist.leaf_candidates(lt, lv, hist.string_room(lv) if lt[0] == "Str" else 0, d * 3 + k)
                             if c:
                                 menu.append((side, k, p, c[0]))
+                if d == 0:
+                    menu0 = list(menu)
                 for w in menu:
                     res.transitions += 1
                     res.events["write-" + w[0]] += 1
@@ -378,19 +384,34 @@ def run_xo(name, tier, res, seed):
                     res.states += 1
                     nf.append(ws + [w])
             frontier = nf[:40]
-        # the unpickled buffers as allocators
-        objs, new, mo, mn = world([])
-        seenb = []
-        for n_ in new:
-            if not any(n_._buffer is b for b in seenb):
-                seenb.append(n_._buffer)
-                for o_, f_, d_ in allocator_check(n_._buffer, new, res, explicit=(group == "explicit-offset")):
-                    bad(o_, f_, f, cid, d_)
-        r = check(objs, new, mo, mn, "after allocating on the unpickled buffers")
-        if r:
-            bad(r[0], r[1], f, cid, r[2])
-        else:
-            res.outcomes["ok"] += 1
+        # the unpickled buffers as allocators: straight after unpickling, and after a first write on the unpickled side; then
+        # every unpickled buffer is made to GROW (a request of its whole capacity) and everything is read again
+        first_new = [w for w in (menu0 if "menu0" in dir() else []) if w[0] == "new"][:1]
+        for ws in [[]] + [[w] for w in first_new]:
+            try:
+                objs, new, mo, mn = world(ws)
+            except Exception:
+                continue  # (reported by the write histories above)
+            seenb = []
+            for n_ in new:
+                if not any(n_._buffer is b for b in seenb):
+                    seenb.append(n_._buffer)
+                    for o_, f_, d_ in allocator_check(n_._buffer, new, res, explicit=(group == "explicit-offset")):
+                        bad(o_, f_, f, dict(cid, writes=common.jsonable([list(x) for x in ws])), d_)
+            r = check(objs, new, mo, mn, "after allocating on the unpickled buffers")
+            if not r:
+                for b_ in seenb:
+                    res.transitions += 1
+                    res.events["grow-unpickled"] += 1
+                    try:
+                        b_.allocate(b_.capacity + 8)
+                    except Exception as e:
+                        bad("C20.allocator", "allocate-raises:" + common.exc_failure(e), f, dict(cid, writes=common.jsonable([list(x) for x in ws])), repr(e))
+                r = check(objs, new, mo, mn, "after the unpickled buffers have grown (writes before: %r)" % (common.jsonable([list(x) for x in ws]),))
+            if r:
+                bad(r[0], r[1], f, dict(cid, writes=common.jsonable([list(x) for x in ws])), r[2])
+            else:
+                res.outcomes["ok"] += 1
     res.max_depth = depth + 1
     res.sample(dict(cls=name, type=xt.show(t), groups=GROUPS))
 
